@@ -1401,6 +1401,16 @@ func c16Gen(r *rand.Rand, tier string) []Case {
 	var out []Case
 	for i := 0; i < n; i++ {
 		w := scWellFormed(r, 1+r.Intn(3))
+		if i%3 == 1 {
+			// a scalar or enum whose name differs from that of another one by case only
+			if it := scPick(r, w, func(it *scItem) bool {
+				return !it.Ext && (it.K == kScalar || it.K == kEnum) && it.N >= 20 && it.N < 100
+			}); it != nil {
+				twin := *it
+				twin.N = 700 + it.N
+				w = append(append([]scItem{}, w...), twin)
+			}
+		}
 		out = append(out, scCase(fmt.Sprintf("s%d-plain", i), []sx.S{scDocSx("ok", w)}, []string{"plain"}, scDocText(w)))
 		for j := 0; j < k; j++ {
 			var docs [][]scItem
